@@ -193,8 +193,9 @@ def run(S):
     rule_key(S)
     rule_asc(S)
     # every visited border applies the walk's own endpoints (shared with C03): "inside the requested interval"
-    from checks.C03 import rule_lft
+    from checks.C03 import rule_lft, rule_flt
     rule_lft(S)
+    rule_flt(S)
     # the validation primitive itself: a split sends the reader back to the root (shared with C06)
     from checks.C06 import rule_eq
     rule_eq(S)
